@@ -31,14 +31,21 @@ rather than constructed (no permuted array is built; any `data'` with these entr
 Number laws used (hypotheses, not axioms): ONLY `Spec.LwSymm α m` — the generated Lance–Williams
 formula of `m` is symmetric in the two merged clusters — needed because the renumbering may swap
 which child is "a" and which is "b".  It is discharged
-  - for average / weighted / Ward / centroid / median by `CommLaws` (commutativity of `+`, and of
+  - for weighted / Ward / centroid / median by `CommLaws` (commutativity of `+`, and of
     `×` for centroid only), which is true of IEEE add/mul as operations on values (the only caveat
     is the payload of a NaN produced from two NaN operands);
   - for single / complete by `OrderLaws.asymm` + `LtTrichotomy` (incomparable ⇒ equal).
     `LtTrichotomy` is FALSE of IEEE floats (`+0`/`-0`, NaN), so for floats the single/complete
     instance is a theorem about the inputs on which it holds (e.g. no NaN and no zero of both signs
     among the values compared); the NaN/±0-robust statement for single linkage is the C04
-    threshold theorem, not this one.
+    threshold theorem, not this one;
+  - for average by ALL THREE: `CommLaws.add_comm` for the mean, `OrderLaws.asymm` + `LtTrichotomy`
+    for the clamp `least := if a < b then a else b; if mean < least then least else mean` that the
+    `fix:` commit of the crate added to `method::average` (a minimum written with one `<`, as in
+    single).  Before the fix `CommLaws` alone sufficed; with the clamp `CommLaws → LwSymm α .average`
+    is no longer provable for an abstract `Num` (the two `least`s of order-equivalent, non-identical
+    arguments such as `±0` are different values), so average moved to the second group — same
+    proviso for floats as for single/complete.
 No field law (associativity, distributivity, exactness of rounding, …) is used, and neither is any
 well-formedness of `steps` beyond what `GreedyValid` says.
 
@@ -119,13 +126,14 @@ theorem C11_spec_unique' {n : Nat} {π ρ : Nat → Nat} {m : Method} {data data
 
 /-- Which laws give `LwSymm` for which generated formula. -/
 theorem C11_lwSymm (α : Type) [Num α] :
-    (CommLaws α → LwSymm α .average ∧ LwSymm α .weighted ∧ LwSymm α .ward ∧
+    (CommLaws α → LwSymm α .weighted ∧ LwSymm α .ward ∧
       LwSymm α .centroid ∧ LwSymm α .median) ∧
     (OrderLaws α → LtTrichotomy α → LwSymm α .single ∧ LwSymm α .complete) ∧
+    (OrderLaws α → LtTrichotomy α → CommLaws α → LwSymm α .average) ∧
     (OrderLaws α → LtTrichotomy α → CommLaws α → ∀ m : Method, LwSymm α m) :=
-  ⟨fun C => ⟨lwSymm_average C, lwSymm_weighted C, lwSymm_ward C, lwSymm_centroid C,
-      lwSymm_median C⟩,
+  ⟨fun C => ⟨lwSymm_weighted C, lwSymm_ward C, lwSymm_centroid C, lwSymm_median C⟩,
    fun L T => ⟨lwSymm_single L T, lwSymm_complete L T⟩,
+   fun L T C => lwSymm_average L T C,
    fun L T C m => lwSymm_all L T C m⟩
 
 /-- `C11_spec` with the number laws plugged in (all seven methods). -/
